@@ -40,6 +40,12 @@ KINDS = ['rand_bytes', 'trunc_pickle', 'flip_pickle', 'pickle_nondict',
          'remote_ops_unknown', 'valid_emit', 'dict_raw', 'str_raw']
 
 
+REDIS_JUNK = ['rand_bytes', 'trunc_pickle', 'flip_pickle', 'pickle_nondict',
+              'json_nondict', 'json_dict', 'missing_field', 'wrong_type',
+              'unknown_method', 'bad_pickle_class', 'remote_ops_unknown',
+              'str_raw']
+
+
 def gen(rng, tier):
     mode = rng.choice(['async', 'thread'])
     cfg = {'mode': mode, 'nhosts': rng.choice([1, 2]),
@@ -49,13 +55,18 @@ def gen(rng, tier):
         items = []
         for _ in range(rng.randrange(3, 10)):
             k = rng.random()
-            if k < 0.4:
+            if k < 0.3:
                 items.append(['outage', rng.choice([0.5, 3, 10, 40, 100,
                                                     300])])
-            elif k < 0.6:
+            elif k < 0.45:
                 items.append(['emit_during_outage', rng.choice([0.5, 5])])
-            elif k < 0.8:
+            elif k < 0.55:
                 items.append(['sentinel', 0])
+            elif k < 0.85:
+                # a junk message on the channel (same builders as the bus
+                # batch), then a sentinel
+                items.append(['junk', [rng.choice(REDIS_JUNK),
+                                       rng.randrange(10 ** 6)]])
             else:
                 items.append(['wait', rng.choice([1, 30, 90])])
         return {'cfg': cfg, 'items': items}
@@ -330,6 +341,23 @@ def _run_redis(case, cfg, w):
             send_sentinel(where + ' (after recovery)')
         elif kind == 'sentinel':
             send_sentinel(where)
+        elif kind == 'junk':
+            nontrivial = True
+            raw = make_item(arg[0], arg[1], {
+                'sid': sid, 'host_ids': [mgr.host_id],
+                'owner_host_id': mgr.host_id, 'cb_room': sid,
+                'cb_id': 424242})
+            if isinstance(raw, str):
+                raw = raw.encode('utf-8')
+            if isinstance(raw, bytes) and unpickler_safe(raw):
+                rec.count('fault.junk_message')
+                broker.publish('socketio', raw)
+                w.settle()
+                # the listener may have restarted its subscription (a
+                # message arriving in that gap is lost with a real broker
+                # too); afterwards it must be listening again
+                w.advance(2.0)
+                send_sentinel(where + ' (after the junk message)')
         elif kind == 'wait':
             w.advance(arg)
     for o in w.ops:
